@@ -386,7 +386,7 @@ func (g *gen) runOne(r genRun, sets []int) error {
 	}
 	cfg := fmt.Sprintf("CONSTANT MaxLen = %d\nCONSTANT PoolSel = \"%s\"\nCONSTANT SpecNums = {%s}\nINIT Init\nNEXT Next\nINVARIANT Emit\n",
 		r.maxLen, r.pool, strings.Join(nums, ", "))
-	res, err := c.TLC("GenGetopt:"+r.name, lib.TLCRun{Dir: g.dir, Module: "MCGetopt", Cfg: "GenGetopt.cfg", Workers: 2, Timeout: 12 * time.Minute, HeapGB: 3,
+	res, err := c.TLC("GenGetopt:"+r.name, lib.TLCRun{Dir: g.dir, Module: "MCGetopt", Cfg: "GenGetopt.cfg", Workers: 2, Timeout: 25 * time.Minute, HeapGB: 3,
 		Files: map[string][]byte{"GenGetopt.cfg": []byte(cfg)}})
 	if err != nil {
 		return err
